@@ -91,14 +91,14 @@ CHECKS = {
         clauses=CROSS | {"accept", "export-error"},
         phases=dict(quick=[dict(profile="core2"), dict(profile="agg3"), dict(profile="wins3"), dict(profile="win2"),
                            dict(profile="join2"), dict(profile="joins3"), dict(profile="union2"), dict(profile="tall2"), dict(profile="hidsub4"), dict(profile="fn1"), dict(profile="joinz4")],
-                    thorough=[dict(profile="hidsub4"), dict(profile="joinz4"), dict(profile="fn1"), dict(profile="fn2"), dict(profile="str1"), dict(profile="cast1"), dict(profile="ty2"), dict(profile="core3"), dict(profile="agg3"), dict(profile="win3"), dict(profile="wins4"),
+                    thorough=[dict(profile="hidsub4"), dict(profile="joinz4"), dict(profile="fn1"), dict(profile="fn2"), dict(profile="str1"), dict(profile="cast1"), dict(profile="core3"), dict(profile="agg3"), dict(profile="win3"), dict(profile="wins4"),
                               dict(profile="join3"), dict(profile="joins4"), dict(profile="union3"), dict(profile="tall2")]),
     ),
     "C06": dict(
         level="model_checking",
         clauses=GEN_CLAUSES_SPEC | {"errclass"},
         phases=dict(quick=[dict(kind="joinnames"), dict(kind="argspace", verbs=["joinrows"]), dict(kind="flatjoin", pre=2), dict(profile="join2"), dict(profile="join2", opts=dict(alt=True)), dict(profile="joins3"), dict(profile="joinh4"), dict(profile="joinz4")],
-                    thorough=[dict(kind="argspace", verbs=["joinrows"], jkeys=[0, 1, 2, 3], jmax=3), dict(kind="joinnames", lu=["a", "b", "a_t2", "b_t2", "a_t2_1", "b_t2_1", "a_t2_2", "a_x"], ru=["a", "b", "c", "a_t2", "b_t2"]),
+                    thorough=[dict(kind="argspace", verbs=["joinrows"]), dict(kind="argspace", verbs=["joinrows"], jkeys=[0, 1, 2, 3], jmax=2), dict(kind="joinnames", lu=["a", "b", "a_t2", "b_t2", "a_t2_1", "b_t2_1", "a_t2_2", "a_x"], ru=["a", "b", "c", "a_t2", "b_t2"]),
                               dict(kind="flatjoin", pre=3, pairs=[(1, 2), (6, 2), (7, 2)]), dict(profile="join2"), dict(profile="join3"), dict(profile="joins4"), dict(profile="joinh4"), dict(profile="joinz4")]),
     ),
     "C07": dict(
@@ -116,7 +116,7 @@ CHECKS = {
     "C02": dict(
         level="model_checking",
         clauses=GEN_CLAUSES_SPEC | {"errclass", "chain"},
-        phases=dict(quick=[dict(kind="proofs", canary=False), dict(kind="verbnames"), dict(kind="argspace", verbs=["slices"]), dict(kind="argspace", verbs=["arrange", "mutate"], amax=2), dict(profile="core2", opts=dict(chain=True)), dict(profile="imm3", opts=dict(pool=True)), dict(profile="subq4"), dict(profile="wins3"), dict(profile="tall2")],
+        phases=dict(quick=[dict(kind="proofs", canary=False), dict(kind="verbnames"), dict(kind="argspace", verbs=["slices"]), dict(kind="argspace", verbs=["arrange", "mutate"], amax=2), dict(profile="core2", opts=dict(chain=True)), dict(profile="ref3"), dict(profile="imm3", opts=dict(pool=True)), dict(profile="subq4"), dict(profile="wins3"), dict(profile="tall2")],
                     thorough=[dict(profile="subq5"), dict(kind="argspace", verbs=["slices"], ns=[0, 1, 2, 3, 6], ks=[0, 1, 2, 4, 7], sizes=[0, 1, 4, 6]), dict(kind="argspace", verbs=["arrange", "mutate"], amax=3), dict(kind="proofs", canary=False), dict(kind="verbnames", cols=["a", "b", "c", "x"], keys=["a", "b", "c", "x", "z"], vals=["a", "b", "c", "x", "y"]), dict(profile="core2"), dict(profile="core3"), dict(profile="imm4", opts=dict(pool=True)), dict(profile="wins4"), dict(profile="tall2"), dict(profile="reroot3")]),
     ),
     "C03": dict(
@@ -128,7 +128,8 @@ CHECKS = {
     "C17": dict(
         level="model_checking",
         clauses={"rows", "order", "names", "accept", "export-error", "cross-rows", "errclass", "cast-accept", "cast-internal"},
-        phases=dict(quick=[dict(kind="castmatrix"), dict(profile="cast1")], thorough=[dict(kind="castmatrix"), dict(profile="cast1")]),
+        phases=dict(quick=[dict(kind="castmatrix"), dict(profile="cast1"), dict(profile="cast1", opts=dict(src="lazy_ns")), dict(profile="cast1", opts=dict(src="pandas"))],
+                    thorough=[dict(kind="castmatrix"), dict(profile="cast1"), dict(profile="cast1", opts=dict(src="lazy_ns")), dict(profile="cast1", opts=dict(src="pandas")), dict(profile="fn1"), dict(profile="ty2")]),
     ),
     "C18": dict(
         level="model_checking",
@@ -166,14 +167,14 @@ CHECKS = {
     "C19": dict(
         level="exploration",
         clauses={"dialect-internal", "dialect-noselect", "dialect-nondet", "impl-internal"},
-        phases=dict(quick=[dict(kind="impls", max_arity=2), dict(kind="flatjoin", pre=2),
+        phases=dict(quick=[dict(kind="impls", max_arity=2), dict(kind="flatjoin", pre=2), dict(kind="msboolbit", depth=1),
                            dict(profile="core2", backends=("sqlite", "postgres", "mssql"), opts=dict(buildq=True)),
                            dict(profile="agg3", backends=("sqlite", "postgres", "mssql"), opts=dict(buildq=True)),
                            dict(profile="wins3", backends=("sqlite", "postgres", "mssql"), opts=dict(buildq=True)),
                            dict(profile="join2", backends=("sqlite", "postgres", "mssql"), opts=dict(buildq=True)),
                            dict(profile="union2", backends=("sqlite", "postgres", "mssql"), opts=dict(buildq=True)),
                            dict(profile="fn1", backends=("sqlite", "postgres", "mssql"), opts=dict(buildq=True))],
-                    thorough=[dict(profile="wins3", backends=("sqlite", "postgres", "mssql"), opts=dict(buildq=True)), dict(kind="impls", max_arity=2), dict(kind="flatjoin", pre=2),
+                    thorough=[dict(profile="wins3", backends=("sqlite", "postgres", "mssql"), opts=dict(buildq=True)), dict(kind="impls", max_arity=2), dict(kind="flatjoin", pre=2), dict(kind="msboolbit", depth=2),
                               dict(profile="core3", backends=("sqlite", "postgres", "mssql"), opts=dict(buildq=True)),
                               dict(profile="agg3", backends=("sqlite", "postgres", "mssql"), opts=dict(buildq=True)),
                               dict(profile="win3", backends=("sqlite", "postgres", "mssql"), opts=dict(buildq=True)),
@@ -201,7 +202,7 @@ CHECKS = {
     "C14": dict(
         level="model_checking",
         clauses={"errclass", "accept", "export-error", "lca", "lca-internal"}, export_error_backends={"polars"},
-        phases=dict(quick=[dict(kind="verbnames"), dict(kind="lca", max_n=2), dict(profile="err2"), dict(profile="join2"), dict(profile="union2")],
+        phases=dict(quick=[dict(kind="verbnames"), dict(kind="lca", max_n=2), dict(profile="err2"), dict(profile="join2"), dict(profile="union2"), dict(profile="union3")],
                     thorough=[dict(kind="verbnames", cols=["a", "b", "c", "x"], keys=["a", "b", "c", "x", "z"], vals=["a", "b", "c", "x", "y"]), dict(kind="lca", max_n=3), dict(profile="err3"), dict(profile="join2"), dict(profile="union3")]),
     ),
     "C15": dict(
@@ -213,8 +214,8 @@ CHECKS = {
     "C16": dict(
         level="model_checking",
         clauses=GEN_CLAUSES_SPEC | {"errclass", "getname"},
-        phases=dict(quick=[dict(profile="reroot3"), dict(profile="rerootagg5"), dict(profile="collectg4"), dict(profile="hidsub4"), dict(profile="joinz4")],
-                    thorough=[dict(profile="reroot3"), dict(profile="reroot4"), dict(profile="rerootagg5"), dict(profile="collectg4"), dict(profile="hidsub4"), dict(profile="joinz4")]),
+        phases=dict(quick=[dict(profile="reroot3"), dict(profile="rerootagg5"), dict(profile="collectg4"), dict(profile="hidsub4"), dict(profile="joinz4"), dict(profile="joinh4")],
+                    thorough=[dict(profile="reroot3"), dict(profile="reroot4"), dict(profile="rerootagg5"), dict(profile="collectg4"), dict(profile="hidsub4"), dict(profile="joinz4"), dict(profile="joinh4")]),
     ),
     "C10": dict(
         level="model_checking",
@@ -228,7 +229,7 @@ CHECKS = {
         level="model_checking",
         clauses={"meta", "trace-names", "trace-group", "trace-export-columns", "trace-unknown-input", "trace-sql-limit",
                  "trace-sql-filtered", "trace-sql-grouped", "trace-dtype", "trace-export-dtype", "names", "errclass", "accept"},
-        phases=dict(quick=[dict(kind="cachegraph", stride=4), dict(kind="verbnames"), dict(kind="joinnames"), dict(profile="core2", opts=dict(printing=True)), dict(profile="agg3", opts=dict(printing=True)), dict(profile="join2"), dict(profile="union2"), dict(profile="hidsub4"),
+        phases=dict(quick=[dict(kind="cachegraph", stride=4), dict(kind="verbnames"), dict(kind="joinnames"), dict(profile="core2", opts=dict(printing=True)), dict(profile="agg3", opts=dict(printing=True)), dict(profile="join2"), dict(profile="union2"), dict(profile="hidsub4"), dict(profile="reroot3"),
                            dict(kind="tracemeta", profiles=[("core2", 400), ("join2", 300), ("agg3", 300)])],
                     thorough=[dict(profile="hidsub4"), dict(kind="verbnames", cols=["a", "b", "c", "x"], keys=["a", "b", "c", "x", "z"], vals=["a", "b", "c", "x", "y"]),
                               dict(kind="joinnames", lu=["a", "b", "a_t2", "b_t2", "a_t2_1", "b_t2_1", "a_t2_2", "a_x"], ru=["a", "b", "c", "a_t2", "b_t2"]),
